@@ -36,6 +36,9 @@ func genScenario(r *rand.Rand, withClone bool) string {
 	if !withClone && r.Intn(4) == 0 {
 		return genLive(r)
 	}
+	if !withClone && r.Intn(12) == 0 {
+		return genWide(r)
+	}
 	tmo := []int{0, 0, 2}[r.Intn(3)]
 	acts := []string{fmt.Sprintf("ps %d %d", tmo, r.Intn(2))}
 	nextChan, nextVal, nextPub, nextUnsub, nextAll, nextClone := 0, 1, 0, 0, 0, 1
@@ -234,6 +237,30 @@ func genLive(r *rand.Rand) string {
 		}
 	}
 	acts = append(acts, "wait")
+	return strings.Join(acts, ";")
+}
+
+// genWide: the `live` family with MANY buffered subscribers: an asynchronous publish has a long loop over the subscriber list, and the removal of
+// the EARLIEST subscribers races it from another goroutine (the list is spliced in place while the publisher may still be walking it): every
+// subscriber that stays subscribed gets every event exactly once
+func genWide(r *rand.Rand) string {
+	acts := []string{"ps 0 0", "live"}
+	n := 150 + r.Intn(250)
+	for c := 0; c < n; c++ {
+		acts = append(acts, fmt.Sprintf("sub %d 2", c))
+	}
+	acts = append(acts, "wait")
+	nextVal, nextUnsub := 1, 0
+	for p := 0; p < 2; p++ {
+		variant := []string{"pub", "pubslice", "pub"}[r.Intn(3)]
+		acts = append(acts, fmt.Sprintf("pub %d 0 %s %d", p, variant, nextVal))
+		nextVal++
+		for k := 0; k < 1+r.Intn(3); k++ {
+			acts = append(acts, fmt.Sprintf("unsub %d 0 %d", nextUnsub, nextUnsub))
+			nextUnsub++
+		}
+		acts = append(acts, "wait")
+	}
 	return strings.Join(acts, ";")
 }
 
@@ -438,6 +465,7 @@ func pubsubChild(args []string) int {
 		}
 	}
 	var rxmu sync.Mutex
+	skipClones := false
 	inline := false
 	spawn := func(f func()) {
 		if inline { // "+action": the call runs in the script's own goroutine, back to back with the next action
@@ -458,7 +486,9 @@ func pubsubChild(args []string) int {
 		case "ps":
 			root := &chans.PubSub[int]{PubTimeoutAfter: time.Duration(atoi(f[1])) * time.Millisecond, DefaultBuffer: atoi(f[2])}
 			if atoi(f[1]) > 0 {
-				root.OnPubTimeout = func(v int) { p.log("tmo %d", v) }
+				// the callback takes a little while before it is stamped: a Sync/Wait publish that returned before its timeout callbacks
+				// have finished shows as `pubret` BEFORE `tmo` in the trace
+				root.OnPubTimeout = func(v int) { time.Sleep(150 * time.Microsecond); p.log("tmo %d", v) }
 			}
 			p.objs[0] = root
 			p.wmu.Lock()
@@ -580,8 +610,12 @@ func pubsubChild(args []string) int {
 			})
 		case "withonly":
 			w, via, c := atoi(f[1]), atoi(f[2]), atoi(f[3])
-			if rc, ok := p.ready[c]; !ok || !waitFor(rc, 3*time.Millisecond) {
-				continue // the clone is never made; publishes through it are skipped (cready[w] stays open)
+			if rc, ok := p.ready[c]; skipClones || !ok || !waitFor(rc, 3*time.Millisecond) {
+				// the clone is never made; publishes through it are skipped (cready[w] stays open).  Clone ids are 1,2,3… in the order of
+				// the withonly EVENTS, so once one is skipped no later clone is made either (else the trace would name clone 2 before clone 1
+				// exists: a flaky rejection by the model, seen under load)
+				skipClones = true
+				continue
 			}
 			rxmu.Lock()
 			ch := p.rx[c]
